@@ -30,12 +30,14 @@ func init() {
 				"table and the lock/wake-up discipline by an invariant argument that the checker does not mechanise.",
 			Rules: map[string]string{"C18-R1": "counter transition tables", "C18-R2": "counter state only under counterCond.L",
 				"C18-R3": "Broadcast after every state change that can release waiters; no Signal",
-				"C18-R4": "slot taken/released exactly once on every accept/close path", "C18-R7": "limiter wiring: New builds one shared counter with the configured thresholds; Limit hands every listener that shared counter and condition variable; the limiting ListenConfig wraps every stream listener; dnssvc wraps the listen config whenever a limiter is configured; the YAML thresholds reach New unchanged",
+				"C18-R4": "slot taken/released exactly once on every accept/close path", "C18-R8": "Close marks the listener closed and wakes all waiting accepts on every path, also when the underlying listener's Close fails",
+				"C18-R7": "limiter wiring: New builds one shared counter with the configured thresholds; Limit hands every listener that shared counter and condition variable; the limiting ListenConfig wraps every stream listener; dnssvc wraps the listen config whenever a limiter is configured; the YAML thresholds reach New unchanged",
 				"C18-R5": "pipeline semaphore acquire-before-submit, release once, sized from config"},
 		}})
 }
 
 func runC18(c *an.Ctx) {
+	c18Close(c)
 	checkFieldMap(c, "C18-R6", "cmd.(servers).toInternal", "agd.TCPConfig", map[string]string{
 		"IdleTimeout": ".TCPIdleTimeout.Duration", "MaxPipelineCount": ".TCP.MaxPipelineCount", "MaxPipelineEnabled": ".TCP.Enabled"})
 	c.Floor("C18-R1", 2)
@@ -584,4 +586,55 @@ func c18Wiring(c *an.Ctx) {
 		},
 	})
 	checkFieldMap(c, "C18-R7", "cmd.(*connLimitConfig).toInternal", "connlimiter.Config", map[string]string{"Stop": ".Stop", "Resume": ".Resume"})
+}
+
+// c18Close is the table of limitListener.Close: whatever the underlying
+// listener's Close returns, the listener is marked closed and the waiting
+// accepts are woken.
+func c18Close(c *an.Ctx) {
+	c.Floor("C18-R8", 1)
+	decide(c, "C18-R8", "connlimiter.(*limitListener).Close", an.DecideCfg{
+		Dom:    an.Domain{"p0.isClosed": an.Bools, "closeerr": an.Bools},
+		Inline: func(f *ssa.Function) bool { return strings.HasPrefix(an.FnKey(f), "connlimiter.(*limitListener).Close$") },
+		OnCall: func(it *an.Interp, name string, args []an.AV) (an.AV, bool) {
+			switch {
+			case name == "p0.Listener.Close":
+				if it.Feature("closeerr").IsTrue() {
+					return an.NonNil("closeErr"), true
+				}
+				return an.Nil(), true
+			case strings.HasSuffix(name, "errors.Annotate"):
+				return args[0], true
+			}
+			return an.AV{}, false
+		},
+		Expect: func(f an.Features, o an.AOutcome) string {
+			if len(o.Ret) != 1 {
+				return "an error result"
+			}
+			if o.CallIndex("p0.counterCond.L.Lock") != 0 {
+				return "the listener's state changed under the limiter's lock"
+			}
+			closed := false
+			for _, s := range o.Stores() {
+				if s == "p0.isClosed=true" {
+					closed = true
+				}
+			}
+			bc := o.HasCall("(*sync.Cond).Broadcast")
+			if f.B("p0.isClosed") {
+				if o.Ret[0].Kind != an.KNil && !o.HasCall("p0.Listener.Close") {
+					return ""
+				}
+				return "an error and no second close for an already closed listener"
+			}
+			if !closed || !bc {
+				return fmt.Sprintf("the listener marked closed and every waiting accept woken, also when the underlying Close fails (closed=%v broadcast=%v)", closed, bc)
+			}
+			if f.B("closeerr") != (o.Ret[0].Kind != an.KNil) {
+				return "the underlying Close's error returned"
+			}
+			return ""
+		},
+	})
 }
